@@ -12,6 +12,8 @@ Sub-checks (different generator domains, so that one defect does not hide the ot
   readonly   an archive built in the safe domain, then every mutating call on a mode-'r' object
   failed     histories with mutations that must fail (duplicate add, delete of a missing file, non-ASCII name,
              archive file that cannot be opened) interleaved with successful ones
+  collide    histories in which a file is overwritten with DIFFERENT bytes of EQUAL CRC-32 (constructed with
+             `crc_forge`), or added with content whose CRC-32 is that of the empty file
 """
 from __future__ import annotations
 
@@ -36,7 +38,8 @@ RULE = (
     'non-trivial (placement) = some file is split between preload and archive data AND an overwrite or delete was '
     'committed and re-read by a fresh VPK; (names) = a name with an empty/dotted component was committed; '
     '(readonly) = >= 3 kinds of mutation tried on a non-empty archive; (failed) = a failed mutation followed by a '
-    'successful write_dirfile; distinct = sha1 of the descriptor JSON'
+    'successful write_dirfile; (collide) = an equal-CRC overwrite / CRC-of-empty add was committed; '
+    'distinct = sha1 of the descriptor JSON'
 )
 ASSUMPTIONS = [
     'names are ASCII printable without / \\ NUL; folder parts are non-empty and not "." or ".." (already normalised)',
@@ -47,6 +50,8 @@ ASSUMPTIONS = [
     'a session opened with mode "w", or "a" on a missing file, always ends with write_dirfile/exit (VPK() itself '
     'leaves a 0-byte directory file until then; the statement only speaks about the state after writing the directory)',
     'after an abandoned session (no write_dirfile) the archive must still read as of the last written directory',
+    'collide sub-check: "the data last written" is compared byte for byte, so two different contents with the same '
+    'CRC-32 are different data (the statement quantifies over all file contents)',
     'failed sub-check: an OSError while appending to a numbered archive (its path is occupied by a directory) counts '
     'as a failed mutation that must not change the archive contents',
 ]
@@ -724,6 +729,8 @@ def history_strategy(tier: str, *, names, limits, archs, over_archs, max_size, s
     data = data_desc(max_size)
     modes = ['w', 'a', 'a', 'a', 'r']
     cmds = [
+        # first alternative = the one the shrinker lowers commands to; it draws nothing else, so it can be deleted
+        st.tuples(st.just('write')),
         open_args(modes, limits).map(lambda t: ('open',) + t),
         st.tuples(st.just('add'), sel, sp, data, st.sampled_from(archs)),
         st.tuples(st.just('add'), sel, sp, data, st.sampled_from(archs)),
@@ -731,7 +738,6 @@ def history_strategy(tier: str, *, names, limits, archs, over_archs, max_size, s
         st.tuples(st.just('over'), sel, sp, data, st.sampled_from(over_archs)),
         st.tuples(st.just('over'), sel, sp, data, st.sampled_from(over_archs)),
         st.tuples(st.just('del'), sel, sp),
-        st.tuples(st.just('write')),
         open_args(modes, limits).map(lambda t: ('open',) + t),
     ]
     cmds.extend(extra_cmds)
@@ -940,24 +946,24 @@ def execute_readonly(desc, ctx):
 
 
 SUBCHECKS = [
-    Sub('placement', execute_placement, strategy=placement_strategy, quick=1600, thorough=48000, floor=50,
+    Sub('placement', execute_placement, strategy=placement_strategy, quick=1600, thorough=40000, floor=50,
         quick_shards=8, thorough_shards=16,
         must_hit=('loc:preload', 'loc:tail', 'loc:numbered', 'loc:single-preload', 'loc:single-tail', 'split',
                   'size>=64k', 'limit:none', 'limit:over64k', 'loc:tail|lim:none', 'loc:numbered|lim:over64k',
                   'op:add', 'op:new', 'op:over', 'op:del', 'open:w', 'open:a', 'open:r',
                   'end:write', 'end:exit', 'end:abandon', 'arch:None', 'arch:dflt', 'arch:999')),
-    Sub('names', execute_names, strategy=names_strategy, quick=1200, thorough=40000, floor=50,
+    Sub('names', execute_names, strategy=names_strategy, quick=1200, thorough=30000, floor=50,
         quick_shards=4, thorough_shards=16,
         must_hit=('name:empty_folder', 'name:empty_ext', 'name:empty_stem', 'name:dotted_stem', 'name:nested_folder',
                   'name:space', 'spelling:str', 'spelling:pair', 'spelling:triple', 'op:over', 'op:del',
                   'loc:numbered', 'loc:preload', 'loc:single-preload')),
-    Sub('readonly', execute_readonly, strategy=readonly_strategy, quick=600, thorough=16000, floor=50,
+    Sub('readonly', execute_readonly, strategy=readonly_strategy, quick=600, thorough=12000, floor=50,
         quick_shards=2, thorough_shards=8,
         must_hit=tuple('ro:' + k for k in RO_MUTATIONS) + ('missing_file',)),
-    Sub('failed', execute_failed, strategy=failed_strategy, quick=1000, thorough=32000, floor=50,
+    Sub('failed', execute_failed, strategy=failed_strategy, quick=1000, thorough=24000, floor=50,
         quick_shards=2, thorough_shards=16,
         must_hit=('fail:duplicate', 'fail:del_missing', 'fail:nonascii', 'fail:blocked_add', 'fail:blocked_over')),
-    Sub('collide', execute_collide, strategy=collide_strategy, quick=400, thorough=12000, floor=30,
+    Sub('collide', execute_collide, strategy=collide_strategy, quick=400, thorough=8000, floor=30,
         quick_shards=2, thorough_shards=8, must_hit=('collide:over', 'collide:crc_of_empty')),
 ]
 
